@@ -7,10 +7,11 @@ side calls float/bool, every near miss and a sample of the rest is then loaded
 end to end (top level, block mapping value, flow sequence item) and the type
 and value of what was constructed are compared with the resolved tag.
 """
+import enum
 import itertools
 import re
 import math
-from typing import Any, Dict, List
+from typing import Any, Dict, List, Union
 
 import yaml
 
@@ -91,6 +92,24 @@ class Wrap:
             node.set_attribute('value', v)
 
 
+class Tri(enum.Enum):
+    fast = 1
+    slow = 2
+
+
+class EnumSide:
+    """One alternative of a Union: `flag` is an enum."""
+    def __init__(self, flag: Tri, level: int) -> None:
+        self.flag = flag
+
+
+class LooseSide:
+    """The other alternative: `flag` is a bool, a float or a string.  Trying
+    the enum alternative first must not change how `flag` is read here."""
+    def __init__(self, flag: Union[bool, float, str], name: str) -> None:
+        self.flag = flag
+
+
 OCTAL = re.compile(r'^0o[0-7]+$')
 
 
@@ -110,8 +129,12 @@ class Env:
         self.load_seq = yatiml.load_function(List[Any])
         self.load_wrap = yatiml.load_function(Wrap)
         self.load_wraps = yatiml.load_function(Dict[str, Wrap], Wrap)
+        self.load_alt = yatiml.load_function(
+            Union[EnumSide, LooseSide], EnumSide, LooseSide, Tri)
+        self.load_alt2 = yatiml.load_function(
+            Union[LooseSide, EnumSide], LooseSide, EnumSide, Tri)
         fns = (self.load_any, self.load_map, self.load_seq, self.load_wrap,
-               self.load_wraps)
+               self.load_wraps, self.load_alt, self.load_alt2)
         if mode == 'custom-after':
             for f in fns:
                 try:
@@ -168,6 +191,16 @@ CONTEXTS = [
      lambda n: n.value[0][1] if isinstance(n, yaml.MappingNode)
      and len(n.value) == 1 else None,
      lambda v: v['k'].value, 'load_wraps'),
+    # an attribute of a class that is one alternative of a Union whose other
+    # alternative reads the same attribute as an enum
+    ('wrapalt', lambda s: 'flag: ' + s + '\nname: x\n',
+     lambda n: n.value[0][1] if isinstance(n, yaml.MappingNode)
+     and len(n.value) == 2 else None,
+     lambda v: v.flag, 'load_alt'),
+    ('wrapalt2', lambda s: 'flag: ' + s + '\nname: x\n',
+     lambda n: n.value[0][1] if isinstance(n, yaml.MappingNode)
+     and len(n.value) == 2 else None,
+     lambda v: v.flag, 'load_alt2'),
 ]
 
 
@@ -260,7 +293,9 @@ def check_e2e(ctx, s, env, near=False):
         except Exception as e:      # noqa
             v, exc = None, e
         case = {'s': s, 'context': name, 'mode': env.mode}
-        if name.startswith('wrap'):
+        if name.startswith('wrapalt'):
+            name = name + ' (attribute next to an enum alternative)'
+        elif name.startswith('wrap'):
             name = name + ' (short form of a user class)'
         if env.mode != 'fresh':
             name = name + ' loader-class-with-own-implicit-resolver/' + \
